@@ -61,12 +61,12 @@ def gen_c(exps, compiler):
         n += 1
         sig = abi + ":" + ",".join(types)
         proto = ", ".join(CTYPE[t] for t in types) or "void"
-        body = [f"static void {name}(void) {{"]
+        body = [f'extern void {ATTR[abi]} {name}_callee({proto}) __asm__("dump_args");', f"static void {name}(void) {{"]
         for q, t in enumerate(types):
             body.append(f"  {CTYPE[t]} a{q}; sentinel(&a{q}, {q}, {sizes[q]});")
         body.append("  memset(&D, 0xEE, sizeof D);")
         args = ", ".join(f"a{q}" for q in range(len(types)))
-        body.append(f"  ((void ({ATTR[abi]} *)({proto}))dump_args)({args});")
+        body.append(f"  {name}_callee({args});")
         for q, t in enumerate(types):
             kind, grp, rid, off, ind = locs[q]
             body.append(f'  expect("{sig}", {q}, {sizes[q]}, {0 if kind == "reg" else 1}, {0 if grp == "gp" else 1}, {rid}, {off}, {1 if ind else 0});')
